@@ -4,6 +4,8 @@
 (* The trace is a JSON array of events; one TLC step consumes one event.   *)
 (*   New(p)            a pattern object is created                         *)
 (*   Search(q,res)     list(p.occurrences_in(q)) on the current object     *)
+(*   SearchedIn(p2,res) list(p2.occurrences_in(p)): the current object is   *)
+(*                     the permutation being searched                      *)
 (*   SearchCol(q,cp,cq,res)  the same with colourings                      *)
 (*   Pred(kind,q,ps,res)  contains / avoids / avoids_set / in / count_*    *)
 (*   Col(p,q,cp,cq,res)   coloured occurrences                             *)
@@ -22,10 +24,10 @@ Ev == Trace[l]
 Flag(clause) == Append(bad, [i |-> l, clause |-> clause])
 
 TInit == /\ l = 1 /\ bad = <<>> /\ drift = <<>>
-         /\ patt = <<>> /\ bound = FALSE /\ searched = FALSE /\ perm = <<>> /\ reply = <<>> /\ cols = <<>> /\ its = <<>>
+         /\ patt = <<>> /\ bound = FALSE /\ searched = FALSE /\ perm = <<>> /\ reply = <<>> /\ cols = <<>> /\ its = <<>> /\ astext = FALSE
 
 TNew == /\ Ev.op = "New"
-        /\ patt' = Ev.p /\ bound' = FALSE /\ searched' = FALSE /\ perm' = <<>> /\ reply' = <<>> /\ cols' = <<>> /\ its' = <<>>
+        /\ patt' = Ev.p /\ bound' = FALSE /\ searched' = FALSE /\ perm' = <<>> /\ reply' = <<>> /\ cols' = <<>> /\ its' = <<>> /\ astext' = FALSE
         /\ bad' = IF PIsPerm(Ev.p) THEN bad ELSE Flag("NewIsPerm")
         /\ UNCHANGED drift
 
@@ -33,6 +35,12 @@ TSearch == /\ Ev.op = "Search"
            /\ Search(Ev.q)                                   \* the machine's action
            /\ bad' = IF reply' = Ev.res THEN bad ELSE Flag("ReplyIsListing")
            /\ drift' = IF Ev.tabok THEN drift ELSE Append(drift, l)   \* table compared by the adapter with Memo
+
+\* the current object is the permutation: Ev.p2 (any object, fresh or long-lived) is searched in it
+TSearchedIn == /\ Ev.op = "SearchedIn"
+               /\ SearchedIn(Ev.p2)
+               /\ bad' = IF reply' = Ev.res THEN bad ELSE Flag("ReplyIsListing")
+               /\ UNCHANGED drift
 
 \* a coloured search on the current (possibly already used) object
 TSearchCol == /\ Ev.op = "SearchCol"
@@ -43,12 +51,15 @@ TSearchCol == /\ Ev.op = "SearchCol"
 \* lazy iterators on the current object, consumed in any interleaving
 TOpenIter == /\ Ev.op = "OpenIter"
              /\ its' = Append(its, [q |-> Ev.q, got |-> <<>>, done |-> FALSE])
-             /\ UNCHANGED <<patt, bound, searched, perm, reply, cols, bad, drift>>
+             /\ UNCHANGED <<patt, bound, searched, perm, reply, cols, astext, bad, drift>>
 TStepIter == /\ Ev.op = "StepIter"
-             /\ StepIter(Ev.it)
-             /\ bad' = IF Ev.stop = its'[Ev.it].done /\ (Ev.stop \/ Ev.res = its'[Ev.it].got[Len(its'[Ev.it].got)])
-                        THEN bad ELSE Flag("ItersIndependent")
-             /\ UNCHANGED drift
+             /\ IF Ev.it \notin DOMAIN its \/ its[Ev.it].done
+                THEN \* the real iterator goes on after the model's listing is exhausted: flagged, state kept (total verdicts)
+                     /\ bad' = Flag("ItersIndependent") /\ UNCHANGED <<vars, drift>>
+                ELSE /\ StepIter(Ev.it)
+                     /\ bad' = IF Ev.stop = its'[Ev.it].done /\ (Ev.stop \/ Ev.res = its'[Ev.it].got[Len(its'[Ev.it].got)])
+                                THEN bad ELSE Flag("ItersIndependent")
+                     /\ UNCHANGED drift
 
 AllOcc(q, ps) == [i \in DOMAIN ps |-> POcc(ps[i], q)]
 PredValue(kind, q, ps) ==
@@ -65,7 +76,7 @@ TCol == /\ Ev.op = "Col"
 
 TNext == /\ l <= Len(Trace)
          /\ l' = l + 1
-         /\ (TNew \/ TSearch \/ TSearchCol \/ TPred \/ TCol \/ TOpenIter \/ TStepIter)
+         /\ (TNew \/ TSearch \/ TSearchedIn \/ TSearchCol \/ TPred \/ TCol \/ TOpenIter \/ TStepIter)
 
 \* every invariant of the machine is evaluated at every step of the real execution
 TraceDone == l = Len(Trace) + 1 => PrintT(ToJson([verdict |-> bad, drift |-> drift, n |-> Len(Trace)]))
